@@ -2255,6 +2255,8 @@ class GroupBy:
         pd.Series
             Cumulative count for each group, same shape as input.
         """
+        # the codes double as the (dummy) values: they must be the unified, contiguous ones
+        self._unify_group_key_chunks()
         return self._apply_rolling_or_cumulative_func("cumcount", self.group_ikey, mask)
 
     @groupby_method(_CUMULATIVE_GB_DOCSTRING, "min")
